@@ -63,6 +63,9 @@ PROGRAMS = [
     "import asab as a, fromm\nfrom .a.b import c as d\nfrom .. import e\nfrom ...f import (g as h)",
     # 49: lambdas whose defaults contain colons (the ':' that ends the parameter list has to be found)
     "f = lambda event, opts={'retry': 1}: f()\ng = lambda a=b[1:2], *c: a\nh = lambda k=(lambda: 0): k",
+    # 50-51: nodes whose end has to be carried up the parent chain over several lines
+    "match s:\n    case 'go', 'north' | \\\n            'south' | \\\n            'east':\n        pass",
+    "match s:\n    case 1:\n        with a:\n            b\n        c\n        d",
 ]
 
 for _p in PROGRAMS:
